@@ -496,7 +496,7 @@ Proof.
   - injection H as <-. cbn. rewrite app_nil_r. apply Permutation_refl.
   - injection H as <-. cbn. rewrite app_nil_r. apply pair_nodes_perm.
   - unfold contract_list in H.
-    destruct (lin_exec merge12 (x :: y :: z :: l) (sub (map leaves (x :: y :: z :: l)))) as [[|parent [|? ?]]|] eqn:E;
+    destruct (lin_exec merge12 (x :: y :: z :: l) (sub (map cleaves (x :: y :: z :: l)))) as [[|parent [|? ?]]|] eqn:E;
       try discriminate.
     injection H as <-.
     pose proof (lin_exec_perm merge12 leaves merge12_perm _ _ _ E) as P.
@@ -511,10 +511,10 @@ Lemma contract_list_total : forall l, any_len (length l) = true -> contract_list
 Proof.
   intros l H. destruct l as [|x [|y [|z l]]]; try discriminate.
   unfold contract_list. set (L := x :: y :: z :: l).
-  assert (HL : 3 <= length (map leaves L)) by (rewrite map_length; cbn; lia).
-  specialize (sub_valid (map leaves L) HL). unfold binary_path_valid in sub_valid.
+  assert (HL : 3 <= length (map cleaves L)) by (rewrite map_length; cbn; lia).
+  specialize (sub_valid (map cleaves L) HL). unfold binary_path_valid in sub_valid.
   rewrite map_length in sub_valid.
-  destruct (lin_run len12 (length L) (sub (map leaves L))) as [[|[|k]]|] eqn:E; try discriminate.
+  destruct (lin_run len12 (length L) (sub (map cleaves L))) as [[|[|k]]|] eqn:E; try discriminate.
   destruct (lin_exec_ok merge12 len12 merge12_total _ L 1 E) as (live & E2 & L2).
   rewrite E2. destruct live as [|p [|? ?]]; cbn in L2; try discriminate.
 Qed.
